@@ -112,6 +112,7 @@ class PDFTextExtractionNotAllowed(PDFEncryptionError):
 LITERAL_OBJSTM = LIT("ObjStm")
 LITERAL_XREF = LIT("XRef")
 LITERAL_CATALOG = LIT("Catalog")
+LITERAL_IDENTITY = LIT("Identity")
 
 
 class PDFBaseXRef:
@@ -383,10 +384,10 @@ class PDFStandardSecurityHandler:
 
     def init_params(self) -> None:
         self.v = int_value(self.param.get("V", 0))
-        self.r = int_value(self.param["R"])
-        self.p = uint_value(self.param["P"], 32)
-        self.o = str_value(self.param["O"])
-        self.u = str_value(self.param["U"])
+        self.r = int_value(self.param.get("R"))
+        self.p = uint_value(self.param.get("P"), 32)
+        self.o = str_value(self.param.get("O"))
+        self.u = str_value(self.param.get("U"))
         self.length = int_value(self.param.get("Length", 40))
 
     def init_key(self) -> None:
@@ -502,15 +503,15 @@ class PDFStandardSecurityHandlerV4(PDFStandardSecurityHandler):
         super().init_params()
         self.length = 128
         self.cf = dict_value(self.param.get("CF"))
-        self.stmf = literal_name(self.param["StmF"])
-        self.strf = literal_name(self.param["StrF"])
+        self.stmf = literal_name(self.param.get("StmF", LITERAL_IDENTITY))
+        self.strf = literal_name(self.param.get("StrF", LITERAL_IDENTITY))
         self.encrypt_metadata = bool(self.param.get("EncryptMetadata", True))
         if self.stmf != self.strf:
             error_msg = "Unsupported crypt filter: param=%r" % self.param
             raise PDFEncryptionError(error_msg)
         self.cfm = {}
         for k, v in self.cf.items():
-            f = self.get_cfm(literal_name(v["CFM"]))
+            f = self.get_cfm(literal_name(dict_value(v).get("CFM")))
             if f is None:
                 error_msg = "Unknown crypt filter method: param=%r" % self.param
                 raise PDFEncryptionError(error_msg)
@@ -573,8 +574,8 @@ class PDFStandardSecurityHandlerV5(PDFStandardSecurityHandlerV4):
     def init_params(self) -> None:
         super().init_params()
         self.length = 256
-        self.oe = str_value(self.param["OE"])
-        self.ue = str_value(self.param["UE"])
+        self.oe = str_value(self.param.get("OE"))
+        self.ue = str_value(self.param.get("UE"))
         self.o_hash = self.o[:32]
         self.o_validation_salt = self.o[32:40]
         self.o_key_salt = self.o[40:]
